@@ -232,6 +232,9 @@ impl Sim {
         // commitment is not yet validated (as in `world fresh`).  Ops `HVH` / `HRV` go through the handler.
         let hworld = first_op == "world h";
         let fresh = fresh || hworld;
+        // `world stub`: the channel is never set up — the node has no ready channel and the tracker no listener
+        let stubworld = first_op == "world stub";
+        let fresh = fresh || stubworld;
         let persister: Arc<SimPersister> =
             Arc::new(KVVPersister(CloudKVVStore::new(MemoryKVVStore::new([7u8; 16])), JsonFormat));
         // (a sub-second part: timestamps taken from the clock must survive the store exactly)
@@ -305,7 +308,9 @@ impl Sim {
             let tx = tx_ctx.to_tx();
             chan_ctx.setup.funding_outpoint = lightning_signer::bitcoin::OutPoint { txid: tx.compute_txid(), vout: ndx };
             let perm_id = if perm { Some(ChannelId::new(&[0xabu8; 32])) } else { None };
-            node_ctx.node.setup_channel(chan_ctx.channel_id.clone(), perm_id, chan_ctx.setup.clone(), &DerivationPath::master()).expect("setup_channel");
+            if !stubworld {
+                node_ctx.node.setup_channel(chan_ctx.channel_id.clone(), perm_id, chan_ctx.setup.clone(), &DerivationPath::master()).expect("setup_channel");
+            }
             if !fresh {
                 let mut commit_tx_ctx = channel_initial_holder_commitment(&node_ctx, &chan_ctx);
                 let (csig, hsigs) = counterparty_sign_holder_commitment(&node_ctx, &chan_ctx, &mut commit_tx_ctx);
@@ -802,6 +807,67 @@ impl Sim {
         })
     }
 
+    /// a root protocol handler for the node (any world)
+    fn root_handler(&self) -> vls_protocol_signer::handler::RootHandler {
+        use vls_protocol::msgs::{self, Message};
+        use vls_protocol_signer::handler::{Handler, InitHandler};
+        let mut init = InitHandler::new(0, self.node(), Arc::new(vls_protocol_signer::approver::PositiveApprover()), 6);
+        let m = msgs::HsmdInit {
+            key_version: vls_protocol::model::Bip32KeyVersion { pubkey_version: 0, privkey_version: 0 },
+            chain_params: lightning_signer::bitcoin::BlockHash::all_zeros(),
+            encryption_key: None,
+            dev_privkey: None,
+            dev_bip32_seed: None,
+            dev_channel_secrets: None,
+            dev_channel_secrets_shaseed: None,
+            hsm_wire_min_version: 2,
+            hsm_wire_max_version: 6,
+        };
+        let (done, _) = init.handle(Message::HsmdInit(m)).expect("hsmd init");
+        assert!(done);
+        init.into()
+    }
+
+    /// `AddBlock` through the real protocol handler (its arm is where an accepted block is made durable)
+    pub fn handler_add_block(&mut self, good: bool) -> (Outcome, usize) {
+        use lightning_signer::bitcoin::consensus::serialize;
+        use vls_protocol::msgs::{self, DebugTxoProof, Message};
+        use vls_protocol::serde_bolt::Octets;
+        use vls_protocol_signer::handler::Handler;
+        self.txn(|s| {
+            let node = s.node();
+            let (tip, height, old) = {
+                let tracker = node.get_tracker();
+                (tracker.tip().clone(), tracker.height(), tracker.headers().get(1).cloned())
+            };
+            let (header, proof) = if good {
+                make_testnet_header(&tip, height)
+            } else {
+                let old = old.unwrap_or_else(|| {
+                    let mut h = tip.0.clone();
+                    h.nonce = h.nonce.wrapping_add(1);
+                    Headers(h, tip.1)
+                });
+                make_testnet_header(&Headers(old.0, old.1), height)
+            };
+            let h = s.root_handler();
+            let r = std::panic::catch_unwind(std::panic::AssertUnwindSafe(|| {
+                h.handle(Message::AddBlock(msgs::AddBlock { header: Octets(serialize(&header)), unspent_proof: Some(DebugTxoProof(proof)) }))
+            }));
+            match r {
+                // the handler aborts on a refused block (`expect`): the request is refused
+                Err(_) => Err(Status::invalid_argument("handler aborted")),
+                Ok(Ok(reply)) => match msgs::from_vec(reply.as_vec()) {
+                    Ok(Message::AddBlockReply(_)) => { s.prev_tips.push(tip); Ok(()) }
+                    // an orphan block is answered with a SignerError reply, not with an error status
+                    Ok(Message::SignerError(_)) => Err(Status::invalid_argument("OrphanBlock")),
+                    other => Err(Status::internal(format!("unexpected reply {:?}", other.map(|_| ())))),
+                },
+                Ok(Err(e)) => Err(match e { vls_protocol_signer::handler::Error::Signing(st) => st, other => Status::internal(format!("{:?}", other)) }),
+            }
+        })
+    }
+
     /// connect `n` good blocks in one request (fills the remembered-header window)
     pub fn add_blocks(&mut self, n: u64) -> (Outcome, usize) {
         self.txn(|s| {
@@ -863,11 +929,15 @@ impl Sim {
     /// Crash between prepare() and commit(): the local store as it was before the commit, plus the
     /// mutations that prepare() reported (they are what the cloud holds and what is re-applied).
     pub fn restore_shadow_crash(&self) -> Result<Arc<Node>, String> {
-        let mut m = self.last_pre_commit.clone();
-        for (k, vv) in &self.last_muts {
-            m.insert(k.clone(), vv.clone());
-        }
-        let kvvs: Vec<KVV> = m.into_iter().map(|(k, vv)| KVV(k, vv)).collect();
+        // the way vlsd comes back: the local store as the crash left it, then the cloud's state (here: the
+        // mutations the last prepare() reported) brought in through `Persist::put_batch_unlogged`
+        let store2 = MemoryKVVStore::new([7u8; 16]);
+        let kvvs: Vec<KVV> = self.last_pre_commit.clone().into_iter().map(|(k, vv)| KVV(k, vv)).collect();
+        store2.put_batch(kvvs).map_err(|e| format!("{:?}", e))?;
+        let p2 = KVVPersister(store2, JsonFormat);
+        let muts = lightning_signer::persist::Mutations::from_vec(self.last_muts.clone());
+        p2.put_batch_unlogged(muts).map_err(|e| format!("startup sync: {:?}", e))?;
+        let kvvs: Vec<KVV> = p2.0.get_prefix("").map_err(|e| format!("{:?}", e))?.collect();
         self.restore_from(kvvs)
     }
 
@@ -1092,6 +1162,7 @@ pub fn exec_op(sim: &mut Sim, op: &str) -> (Outcome, usize) {
         ["forget", w] => sim.forget(num(w) as u64),
         ["hb"] => sim.heartbeat(),
         ["blk+", g] => sim.add_block(*g == "g"),
+        ["HBLK+", g] => sim.handler_add_block(*g == "g"),
         ["blkn", n] => sim.add_blocks(num(n) as u64),
         ["blk-", g] => sim.remove_block(*g == "g"),
         ["restart"] => sim.restart(),
